@@ -210,6 +210,30 @@ func (e *Engine) contractFor(f *types.Func) *Contract {
 	if c, ok := e.db.Contracts[externKey(f)]; ok {
 		return c
 	}
+	if f.Pkg() != nil && e.db.CodecPkgs[f.Pkg().Path()] {
+		// generated TL (de)serialisers: a method writes only its receiver and the buffer it is given
+		c := &Contract{Key: externKey(f), Extern: true, Trusted: true, NoPanic: true, HasMod: true, Loops: map[string][]*SpecExpr{}, Opts: map[string]string{}}
+		sig := f.Type().(*types.Signature)
+		if sig.Recv() != nil {
+			if _, isPtr := sig.Recv().Type().(*types.Pointer); isPtr {
+				if m, err := parseSpecExpr("recv.__allfields", "generated-codec", 0); err == nil {
+					c.Modifies = append(c.Modifies, m)
+				}
+			}
+		}
+		for i := 0; i < sig.Params().Len(); i++ {
+			p := sig.Params().At(i)
+			if pt, ok := p.Type().(*types.Pointer); ok && p.Name() != "" {
+				if n, ok := pt.Elem().(*types.Named); ok && n.Obj().Name() == "Buffer" && n.Obj().Pkg() != nil && n.Obj().Pkg().Path() == "github.com/gotd/td/bin" {
+					if m, err := parseSpecExpr(p.Name()+".Buf", "generated-codec", 0); err == nil {
+						c.Modifies = append(c.Modifies, m)
+					}
+				}
+			}
+		}
+		e.db.Contracts[externKey(f)] = c
+		return c
+	}
 	if f.Pkg() != nil && e.db.PurePkgs[f.Pkg().Path()] {
 		c := &Contract{Key: externKey(f), Extern: true, Pure: true, Trusted: true, NoPanic: true, Loops: map[string][]*SpecExpr{}, Opts: map[string]string{}}
 		e.db.Contracts[externKey(f)] = c
